@@ -164,7 +164,8 @@ def cargo_build(profile, binname, timeout=1500):
     env = {"RUSTFLAGS": "--cfg twenty_first_verif"}
     rc, out, dt = sh(cmd, cwd=HARNESS, timeout=timeout, env=env)
     sub = "release" if profile == "release" else profile
-    return rc, out, os.path.join(HARNESS, "target", sub, binname), dt
+    tdir = os.environ.get("CARGO_TARGET_DIR") or os.path.join(HARNESS, "target")
+    return rc, out, os.path.join(tdir, sub, binname), dt
 
 
 def ocaml_build(gen_dir, driver, timeout=600):
